@@ -12,7 +12,7 @@ RULE = ('one run = one adversarial connection (garbage / mutated / truncated req
         'one real executor, concurrent and subsequent; each canary is first run alone in a twin world and its '
         'transcripts compared; non-trivial = the adversary did something other than a clean exchange while a '
         'canary was in flight or before a later canary; distinct = distinct event-log digests')
-PROBES = ['adv_upstream_bad_framing', 'adv_upstream_gone_with_output_pending', 'adv_garbage', 'adv_truncated', 'adv_nonutf8', 'adv_bad_upstream', 'adv_plugin_raises',
+PROBES = ['front_tls', 'adv_plaintext_on_tls_port', 'adv_upstream_bad_framing', 'adv_upstream_gone_with_output_pending', 'adv_garbage', 'adv_truncated', 'adv_nonutf8', 'adv_bad_upstream', 'adv_plugin_raises',
           'adv_faults', 'adv_reverse', 'adv_web', 'adv_tunnel', 'canary_concurrent', 'canary_subsequent',
           'worker_survived_task_exception', 'blocking_connect_timeout']
 COMPONENTS = {
@@ -22,7 +22,9 @@ COMPONENTS = {
              'proxy/http/parser/*', 'proxy/http/exception/*'],
     'stub': ['kernel incl. fault injection', 'peers', 'generated route plugins'],
 }
-ASSUMPTIONS = ['TLS interception roles are excluded (a blocking handshake with a silent peer is outside the role list)',
+ASSUMPTIONS = ['TLS interception roles are excluded; the proxy\'s own TLS front (--cert-file/--key-file) is included in 15% of the '
+               'runs with an adversary that either handshakes properly or sends plaintext / garbage at once and goes away (a peer '
+               'that stays silent or stops reading during the blocking handshake stalls the worker by design and is outside the role list)',
                'a blocking connect() to a black-holed upstream legitimately stalls the worker for the 10 s connect '
                'timeout; canaries must finish within that plus 6 virtual seconds',
                'canary outcomes are compared by bytes and close kind, never by timing']
@@ -31,10 +33,22 @@ TIERS = {
     'thorough': {'runs': 500000, 'budget_s': 900},
 }
 
+_px: Dict[str, Any] = {}
+
+
+def setup_worker(job: Dict[str, Any]) -> None:
+    # certificate for the proxy's own TLS front (--cert-file / --key-file), used by the 'front_tls' scenarios
+    from ..tls import fixtures, origin_cert
+    px = fixtures(job['scratch'])
+    _px.update(px)
+    _px['front'] = origin_cert(px, 'proxy.example', 'good')
+
+
 CANARY_RESP = b'HTTP/1.1 200 OK\r\nX-Canary: 1\r\nContent-Length: 11\r\n\r\ncanary-body'
 
 
-def _world_setup(w: Any, tape: Any, opts: Dict[str, Any], adv_plugin_raises: bool) -> Tuple[Any, Any, Dict[str, Any]]:
+def _world_setup(w: Any, tape: Any, opts: Dict[str, Any], adv_plugin_raises: bool,
+                 front_tls: bool = False) -> Tuple[Any, Any, Dict[str, Any]]:
     """Flags and origins common to the twin and the main world."""
     from ..actors import Origin
     from ..harness import L1, make_flags
@@ -52,6 +66,8 @@ def _world_setup(w: Any, tape: Any, opts: Dict[str, Any], adv_plugin_raises: boo
     rp = make_reverse_plugin([(r'/rcanary', [b'http://10.0.0.9/base']),
                               (r'/radv', [b'http://10.0.0.66/adv']),
                               (r'/radv2', [b'http://10.0.0.67/adv2'])])
+    if front_tls:
+        opts = dict(opts, cert_file=_px['front']['cert'], key_file=_px['front']['key'])
     flags = make_flags(['--enable-reverse-proxy'], threadless=True, local_executor=1, timeout=3600,
                        enable_web_server=True, plugins=[canary_route, RaisingRoute, rp], **opts)
 
@@ -66,10 +82,13 @@ def _world_setup(w: Any, tape: Any, opts: Dict[str, Any], adv_plugin_raises: boo
     return flags, h, origins
 
 
-def _canary(w: Any, h: Any, k: int, kind: str, start: float) -> Any:
+def _canary(w: Any, h: Any, k: int, kind: str, start: float, front_tls: bool = False) -> Any:
+    import ssl
     from ..actors import Peer
     from .c04 import count_responses
     script: List[Any] = [('sleep', start), ('connect',)] if start > 0 else [('connect',)]
+    if front_tls:
+        script += [('tls_client', ssl.create_default_context(cafile=_px['pub_cert']), 'proxy.example'), ('wait_tls',)]
     if kind == 'fwd':
         req = b'GET http://10.0.0.8/c%d HTTP/1.1\r\nHost: 10.0.0.8\r\n\r\n' % k
         script += [('send', req, 'burst'), ('wait_rx', lambda p: count_responses(bytes(p.rx)) >= 1)]
@@ -80,7 +99,7 @@ def _canary(w: Any, h: Any, k: int, kind: str, start: float) -> Any:
                    ('wait_rx', lambda p: p.rx.endswith(b'tunnel-pong')), ('close',)]
     elif kind == 'web':
         req = b'GET /canary HTTP/1.1\r\nHost: localhost\r\nX-Req-Tag: w%d\r\n\r\n' % k
-        script += [('send', req, 'burst'), ('wait_rx', lambda p: count_responses(bytes(p.rx)) >= 1), ('close',)]
+        script += [('send', req, 'burst'), ('wait_rx', lambda p: count_responses(bytes(p.rx)) >= 1), ('sleep', 0.2), ('close',)]
     else:
         req = b'GET /rcanary HTTP/1.1\r\nHost: localhost\r\n\r\n'
         script += [('send', req, 'burst'), ('wait_rx', lambda p: count_responses(bytes(p.rx)) >= 1), ('close',)]
@@ -112,11 +131,15 @@ def run_one(tape: Any, cfg: Dict[str, Any], forbid: FrozenSet[str] = frozenset()
     starts = [[0.0, 0.0, 0.02, 0.5, 13.0][tape.draw(5, 'cstart')] for _ in range(ncan)]
     opts = scen.proxy_opts(tape, 64)
     twin_seed = tape.draw(1 << 30, 'twin')
+    # the proxy itself may terminate TLS (--cert-file/--key-file): its handshake runs inside the work's initialize()
+    front_tls = g.feature('front_tls', 0.15)
+    if front_tls:
+        opts.pop('client_recvbuf_size', None)       # below a TLS record decrypted bytes would sit inside OpenSSL
 
     # ---- twin world: canaries alone ----------------------------------------------
     with World(Tape(twin_seed)) as tw:
-        _, th, torigins = _world_setup(tw, tw.tape, opts, False)
-        tcan = [_canary(tw, th, k, kinds[k], starts[k]) for k in range(ncan)]
+        _, th, torigins = _world_setup(tw, tw.tape, opts, False, front_tls)
+        tcan = [_canary(tw, th, k, kinds[k], starts[k], front_tls) for k in range(ncan)]
         tw.settle(2.0, 120.0)
         ref = _transcripts(tcan, torigins)
         twin_ok = all(c.finished() for c in tcan) and not th.thread.finished
@@ -127,8 +150,10 @@ def run_one(tape: Any, cfg: Dict[str, Any], forbid: FrozenSet[str] = frozenset()
     # ---- main world ------------------------------------------------------------------
     with World(tape) as w:
         scen.sched_swarm(w, tape)
-        flags, h, origins = _world_setup(w, tape, opts, True)
-        canaries = [_canary(w, h, k, kinds[k], starts[k]) for k in range(ncan)]
+        flags, h, origins = _world_setup(w, tape, opts, True, front_tls)
+        canaries = [_canary(w, h, k, kinds[k], starts[k], front_tls) for k in range(ncan)]
+        if front_tls:
+            w.probe('front_tls')
         for k in range(ncan):
             w.probe('canary_concurrent' if starts[k] < 1 else 'canary_subsequent')
         # -- adversary ----------------------------------------------------------------
@@ -255,6 +280,20 @@ def run_one(tape: Any, cfg: Dict[str, Any], forbid: FrozenSet[str] = frozenset()
             cutoff = len(data)
             ending = 'hang'
         ascript: List[Any] = [('sleep', [0.0, 0.01, 0.3][tape.draw(3, 'astart')]), ('connect',)]
+        if front_tls:
+            import ssl
+            if tape.coin(0.5, 'adv-tls'):
+                # the adversary speaks TLS properly and misbehaves inside the session
+                ascript += [('tls_client', ssl.create_default_context(cafile=_px['pub_cert']), 'proxy.example'), ('wait_tls',)]
+            else:
+                # plaintext / garbage on the TLS port: the handshake inside initialize() fails.  (A peer that stays silent
+                # during the blocking handshake is outside this property: the adversary sends at once and goes away.)
+                w.probe('adv_plaintext_on_tls_port')
+                if cutoff < 8:
+                    cutoff = min(len(data), 8) or 0
+                if cutoff == 0:
+                    data, cutoff = b'GET / HTTP/1.1\r\n\r\n', 18
+                ending = ['close', 'reset'][tape.draw(2, 'tls-ending')]
         mode = ['burst', 'dribble'][tape.draw(2, 'amode')]
         ascript.append(('send', data[:cutoff], mode, 16))
         if arole == 'reverse' and ending == 'follow':
@@ -273,6 +312,8 @@ def run_one(tape: Any, cfg: Dict[str, Any], forbid: FrozenSet[str] = frozenset()
             adv.reading = False
         elif slow_reader:
             adv.read_max = 64
+        if front_tls:
+            adv.reading = True      # a peer that does not read stalls the blocking handshake: out of this property's scope
         acap1, acap2 = scen.pick_cap(tape, 16, 'acap1'), scen.pick_cap(tape, 16, 'acap2')
         if slow_reader:
             acap2 = min(acap2, 1024)        # the response must not fit into the client's receive queue
